@@ -608,25 +608,30 @@ def dedupFrom (prev : PVal) : List PVal → List PVal
   | [] => []
   | v :: rest => (if v != prev then [v] else []) ++ dedupFrom v rest
 
-/-- The port after all queued values have been read. -/
-def MPort.drained (p : MPort) : MPort :=
+/-- The port after all queued values have been read (repaired `read_value`: the cached value stays the user's while
+a value is pending provisioning). -/
+def MPort.drained (fix : Fix) (p : MPort) : MPort :=
   match p.rq.getLast? with
   | none => p
-  | some v => { p with rq := [], cached := v, lastRead := v }
+  | some v => { p with rq := [], cached := if fix.keepPendingValue && p.provValue then p.cached else v, lastRead := v }
 
-theorem drainPort_cons (n : Nat) (p : MPort) (v : PVal) (rest : List PVal) (he : p.enabled = true)
+/-- The port after `read_value` has popped `v` (the rest of the queue being `rest`). -/
+def MPort.popped (fix : Fix) (p : MPort) (v : PVal) (rest : List PVal) : MPort :=
+  { p with rq := rest, cached := if fix.keepPendingValue && p.provValue then p.cached else v, lastRead := v }
+
+theorem drainPort_cons (fix : Fix) (n : Nat) (p : MPort) (v : PVal) (rest : List PVal) (he : p.enabled = true)
     (hrq : p.rq = v :: rest) :
-    drainPort (n + 1) p =
-      ((if v != p.lastRead then [v] else []) ++ (drainPort n { p with rq := rest, cached := v, lastRead := v }).1,
-       (drainPort n { p with rq := rest, cached := v, lastRead := v }).2) := by
+    drainPort fix (n + 1) p =
+      ((if v != p.lastRead then [v] else []) ++ (drainPort fix n (p.popped fix v rest)).1,
+       (drainPort fix n (p.popped fix v rest)).2) := by
   simp only [drainPort, he, hrq, tickPort, Bool.not_true, List.isEmpty_cons, Bool.or_self, Bool.false_eq_true,
     if_false]
   by_cases hv : v = p.lastRead
-  · simp [hv]
-  · simp [hv]
+  · simp [hv, MPort.popped, he]
+  · simp [hv, MPort.popped, he]
 
-theorem drainPort_spec (n : Nat) (p : MPort) (he : p.enabled = true) (hn : p.rq.length ≤ n) :
-    drainPort n p = (dedupFrom p.lastRead p.rq, p.drained) := by
+theorem drainPort_spec (fix : Fix) (n : Nat) (p : MPort) (he : p.enabled = true) (hn : p.rq.length ≤ n) :
+    drainPort fix n p = (dedupFrom p.lastRead p.rq, p.drained fix) := by
   induction n generalizing p with
   | zero =>
     have : p.rq = [] := List.eq_nil_of_length_eq_zero (by omega)
@@ -636,35 +641,45 @@ theorem drainPort_spec (n : Nat) (p : MPort) (he : p.enabled = true) (hn : p.rq.
     | nil => simp [drainPort, hrq, dedupFrom, MPort.drained]
     | cons v rest =>
       have hlen : rest.length ≤ n := by rw [hrq] at hn; simpa using hn
-      rw [drainPort_cons n p v rest he hrq, ih { p with rq := rest, cached := v, lastRead := v } he hlen]
+      rw [drainPort_cons fix n p v rest he hrq, ih (p.popped fix v rest) he hlen]
       simp only [dedupFrom, MPort.drained, hrq]
       congr 1
       cases hl : rest.getLast? with
       | none =>
         have : rest = [] := by simpa using hl
-        simp [this]
+        simp [this, MPort.popped]
       | some w =>
         have : (v :: rest).getLast? = some w := by
           rw [List.getLast?_cons]; simp [hl]
-        simp [this]
+        cases hc : (fix.keepPendingValue && p.provValue) <;> simp [this, MPort.popped, hl, hc]
 
-theorem drained_rq (p : MPort) : p.drained.rq = [] := by
+theorem drained_rq (fix : Fix) (p : MPort) : (p.drained fix).rq = [] := by
   unfold MPort.drained
   cases h : p.rq.getLast? with
   | none => simpa using h
   | some v => rfl
 
-theorem drained_lastRead (p : MPort) (h : p.rq ≠ []) : p.drained.lastRead = p.lastRemote := by
+theorem drained_lastRead (fix : Fix) (p : MPort) (h : p.rq ≠ []) : (p.drained fix).lastRead = p.lastRemote := by
   unfold MPort.drained MPort.lastRemote
   cases hl : p.rq.getLast? with
   | none => exact absurd (by simpa using hl) h
   | some v => rfl
 
-theorem drained_lastRemote (p : MPort) : p.drained.lastRemote = p.lastRemote := by
+/-- With no value pending (or with `read_value` as found) the ticks do not change the newest remote value … -/
+theorem drained_lastRemote (fix : Fix) (p : MPort) (hpv : (fix.keepPendingValue && p.provValue) = false) :
+    (p.drained fix).lastRemote = p.lastRemote := by
   unfold MPort.drained MPort.lastRemote
   cases hl : p.rq.getLast? with
   | none => simp [hl]
-  | some v => simp
+  | some v => simp [hpv]
+
+/-- … and with a value pending, repaired, they leave the user's value as the cached one. -/
+theorem drained_cached_pending (fix : Fix) (p : MPort) (hk : fix.keepPendingValue = true) (hpv : p.provValue = true) :
+    (p.drained fix).cached = p.cached ∧ (p.drained fix).provValue = true := by
+  unfold MPort.drained
+  cases hl : p.rq.getLast? with
+  | none => exact ⟨rfl, hpv⟩
+  | some v => simp [hk, hpv]
 
 /-- Dropping repeats twice is the same as dropping them once. -/
 theorem dedupFrom_idem (prev : PVal) (l : List PVal) : dedupFrom prev (dedupFrom prev l) = dedupFrom prev l := by
@@ -1082,9 +1097,9 @@ theorem reported_series (fix : Fix) (id : Nat) (vs : List PVal) (m : Master) (p 
     (hf : findPort m.ports id = some p) (hpv : p.provValue = false) (he : p.enabled = true)
     (hr : p.rq = [] → p.lastRead = p.cached) :
     ∃ p', findPort (handleEvents fix m (vs.map (Ev.valueChange id))).ports id = some p' ∧
-      (drainPort p'.rq.length p').1 = dedupFrom p.lastRead (p.rq ++ vs) := by
+      (drainPort fix p'.rq.length p').1 = dedupFrom p.lastRead (p.rq ++ vs) := by
   refine ⟨_, valueChanges_rq fix id vs m p hf hpv, ?_⟩
-  rw [drainPort_spec _ { p with rq := p.rq ++ dedupFrom p.lastRemote vs } he (Nat.le_refl _)]
+  rw [drainPort_spec fix _ { p with rq := p.rq ++ dedupFrom p.lastRemote vs } he (Nat.le_refl _)]
   simp only [lastRemote_eq]
   cases hq : p.rq with
   | nil =>
